@@ -45,6 +45,11 @@ CHECKS = {
    technique="stateful property-based testing (proptest): generated change sets split into partial commits by file and by hunk (index composed as `git add -p` would), per-commit model oracle + 'recorded once' invariant",
    text="A generated change set of AI and human hunks is committed through 1-4 successive partial commits (by path, and by hunk via a composed index) with optional edits and commits in between, then the rest. Every commit is judged by the C01 commit oracle (a line is recorded for a commit iff that commit adds it and an agent wrote it per the content-addressed model), and across the sequence no AI line may be listed by the notes of two commits.",
    note="Hunks are those of real git's `diff -U0 HEAD` (Myers). Known findings F4 (unstaged removal above a staged hunk) and F33 (INITIAL not remapped after an uncheckpointed human edit) are matched by signature; lines left out of a partial commit are re-stamped to the next epoch so that they are judged strictly when finally committed."),
+ "C05": dict(
+   level="exploration", design="DESIGN.md §2 C05",
+   technique="stateful property-based testing (proptest): invariant monitor over every note after every op of generated histories, with unusual file names and plumbing re-layouts of the notes tree (metamorphic: layout must not matter)",
+   text="Structural invariants of every note (one path per object, independent v3 recogniser, schema, base == annotated commit, prompt record per hash, no human entries, sorted ranges, files exist in the commit, line numbers within the file) are checked after every op of generated histories that use every note-producing path; file names come mostly from the unusual classes (incl. the divider and a newline) and refs/notes/ai is re-laid-out between ops (flat / aa/ / aa/bb/ / mixed), after which blame must be unchanged and rewrites must still find the notes.",
+   note="Known findings: F5 (cumulative notes of rewritten commits), F6n (newline in a path), F13 (deep fan-out missed by batch look-ups), matched by signature. Size sweep of the notes ref is not implemented (layouts are forced by plumbing instead)."),
 }
 
 NOT_YET = "check not built yet (work in progress; see DESIGN.md section 2 for the plan)"
